@@ -15,7 +15,7 @@ let os (o : coq_N list option) : string = match o with Some l -> hs l | None -> 
 let n_of_hexstr (s : string) : coq_N =
   let sixteen = n_of_int 16 in
   let acc = ref N0 in
-  String.iter (fun c -> acc := BinNat.N.add (BinNat.N.mul !acc sixteen) (n_of_int (hexval c))) s;
+  Stdlib.String.iter (fun c -> acc := BinNat.N.add (BinNat.N.mul !acc sixteen) (n_of_int (hexval c))) s;
   !acc
 
 let hex_of_n (digits : int) (n : coq_N) : string =
@@ -41,7 +41,7 @@ let dt (o : date_time option) =
   | None -> "-"
 let tr (o : transform option) =
   match o with
-  | Some t -> String.concat "," (Stdlib.List.map f64b [t.t_rw; t.t_rx; t.t_ry; t.t_rz; t.t_tx; t.t_ty; t.t_tz])
+  | Some t -> Stdlib.String.concat "," (Stdlib.List.map f64b [t.t_rw; t.t_rx; t.t_ry; t.t_rz; t.t_tx; t.t_ty; t.t_tz])
   | None -> "-"
 let lim (o : limit_value option) =
   match o with
@@ -88,24 +88,24 @@ let dump_pointcloud (pc : pointcloud) (out : string list ref) : unit =
   Stdlib.List.iter (fun r -> push (rname r.r_name ^ "/" ^ rtype r.r_type)) pc.pc_prototype;
   push ("og=" ^ (match pc.pc_original_guids with
       | None -> "-"
-      | Some l -> "[" ^ String.concat "," (Stdlib.List.map hs l) ^ "]"));
+      | Some l -> "[" ^ Stdlib.String.concat "," (Stdlib.List.map hs l) ^ "]"));
   push ("name=" ^ os pc.pc_name);
   push ("desc=" ^ os pc.pc_description);
   push ("cb=" ^ (match pc.pc_cartesian_bounds with
       | None -> "-"
-      | Some b -> String.concat "," (Stdlib.List.map of64 [b.cb_x_min; b.cb_x_max; b.cb_y_min; b.cb_y_max; b.cb_z_min; b.cb_z_max])));
+      | Some b -> Stdlib.String.concat "," (Stdlib.List.map of64 [b.cb_x_min; b.cb_x_max; b.cb_y_min; b.cb_y_max; b.cb_z_min; b.cb_z_max])));
   push ("sb=" ^ (match pc.pc_spherical_bounds with
       | None -> "-"
-      | Some b -> String.concat "," (Stdlib.List.map of64 [b.sb_range_min; b.sb_range_max; b.sb_elevation_min; b.sb_elevation_max; b.sb_azimuth_start; b.sb_azimuth_end])));
+      | Some b -> Stdlib.String.concat "," (Stdlib.List.map of64 [b.sb_range_min; b.sb_range_max; b.sb_elevation_min; b.sb_elevation_max; b.sb_azimuth_start; b.sb_azimuth_end])));
   push ("ib=" ^ (match pc.pc_index_bounds with
       | None -> "-"
-      | Some b -> String.concat "," (Stdlib.List.map oint [b.ib_row_min; b.ib_row_max; b.ib_column_min; b.ib_column_max; b.ib_return_min; b.ib_return_max])));
+      | Some b -> Stdlib.String.concat "," (Stdlib.List.map oint [b.ib_row_min; b.ib_row_max; b.ib_column_min; b.ib_column_max; b.ib_return_min; b.ib_return_max])));
   push ("il=" ^ (match pc.pc_intensity_limits with
       | None -> "-"
       | Some l -> lim l.il_min ^ "," ^ lim l.il_max));
   push ("cl=" ^ (match pc.pc_color_limits with
       | None -> "-"
-      | Some l -> String.concat "," (Stdlib.List.map lim [l.cl_red_min; l.cl_red_max; l.cl_green_min; l.cl_green_max; l.cl_blue_min; l.cl_blue_max])));
+      | Some l -> Stdlib.String.concat "," (Stdlib.List.map lim [l.cl_red_min; l.cl_red_max; l.cl_green_min; l.cl_green_max; l.cl_blue_min; l.cl_blue_max])));
   push ("tr=" ^ tr pc.pc_transform);
   push ("as=" ^ dt pc.pc_acquisition_start);
   push ("ae=" ^ dt pc.pc_acquisition_end);
@@ -126,18 +126,18 @@ let dump_image (im : image) (out : string list ref) : unit =
   push ("guid=" ^ os im.im_guid);
   push ("vr=" ^ (match im.im_visual_reference with
       | None -> "-"
-      | Some v -> String.concat "," [iblob v.vr_blob; mask v.vr_mask; dn v.vr_width; dn v.vr_height]));
+      | Some v -> Stdlib.String.concat "," [iblob v.vr_blob; mask v.vr_mask; dn v.vr_width; dn v.vr_height]));
   push ("pj=" ^ (match im.im_projection with
       | None -> "-"
       | Some (PPinhole p) ->
-        String.concat "," ["PH"; iblob p.ph_blob; mask p.ph_mask; dn p.ph_width; dn p.ph_height;
+        Stdlib.String.concat "," ["PH"; iblob p.ph_blob; mask p.ph_mask; dn p.ph_width; dn p.ph_height;
                            f64b p.ph_focal_length; f64b p.ph_pixel_width; f64b p.ph_pixel_height;
                            f64b p.ph_principal_x; f64b p.ph_principal_y]
       | Some (PSpherical p) ->
-        String.concat "," ["SP"; iblob p.si_blob; mask p.si_mask; dn p.si_width; dn p.si_height;
+        Stdlib.String.concat "," ["SP"; iblob p.si_blob; mask p.si_mask; dn p.si_width; dn p.si_height;
                            f64b p.si_pixel_width; f64b p.si_pixel_height]
       | Some (PCylindrical p) ->
-        String.concat "," ["CY"; iblob p.ci_blob; mask p.ci_mask; dn p.ci_width; dn p.ci_height;
+        Stdlib.String.concat "," ["CY"; iblob p.ci_blob; mask p.ci_mask; dn p.ci_width; dn p.ci_height;
                            f64b p.ci_radius; f64b p.ci_principal_y; f64b p.ci_pixel_width; f64b p.ci_pixel_height]));
   push ("tr=" ^ tr im.im_transform);
   push ("pcg=" ^ os im.im_pointcloud_guid);
@@ -163,7 +163,7 @@ let dump_meta (m : file_meta) : string =
   Stdlib.List.iter (fun pc -> dump_pointcloud pc out) m.fm_pointclouds;
   push ("ims=" ^ string_of_int (Stdlib.List.length m.fm_images));
   Stdlib.List.iter (fun im -> dump_image im out) m.fm_images;
-  String.concat " " (Stdlib.List.rev !out)
+  Stdlib.String.concat " " (Stdlib.List.rev !out)
 
 let show_res (r : file_meta Prelude.res) : string =
   match r with
@@ -176,10 +176,10 @@ let parsers_of_table (entries : string list) =
   let t64 : (string, coq_N) Hashtbl.t = Hashtbl.create 64 in
   let t32 : (string, coq_N) Hashtbl.t = Hashtbl.create 64 in
   Stdlib.List.iter (fun e ->
-      match String.split_on_char ':' e with
+      match Stdlib.String.split_on_char ':' e with
       | [text; a; b] ->
-        if String.length text = 0 || text.[0] <> '=' then failwith ("bad oracle entry " ^ e);
-        let key = String.lowercase_ascii (String.sub text 1 (String.length text - 1)) in
+        if Stdlib.String.length text = 0 || text.[0] <> '=' then failwith ("bad oracle entry " ^ e);
+        let key = Stdlib.String.lowercase_ascii (Stdlib.String.sub text 1 (Stdlib.String.length text - 1)) in
         if a <> "-" then Hashtbl.replace t64 key (n_of_hexstr a);
         if b <> "-" then Hashtbl.replace t32 key (n_of_hexstr b)
       | _ -> failwith ("bad oracle entry " ^ e)) entries;
@@ -197,9 +197,17 @@ let split_at_sep (toks : string list) : string list * string list =
 let run (kind : string) (toks : string list) : string option =
   match kind with
   | "XEXTRACTM" ->
+    (* an optional first token X=<hex of the XML bytes>: the depth check of E57Reader::new
+       (Model/XmlDepth.v) is applied to them before the tree is looked at *)
+    let (xml, toks) = match toks with
+      | t :: r when Stdlib.String.length t >= 2 && Stdlib.String.sub t 0 2 = "X=" -> (Some (bytes_of_hex (Stdlib.String.sub t 2 (Stdlib.String.length t - 2))), r)
+      | _ -> (None, toks) in
     let (orc, tree) = split_at_sep toks in
+    let deep = match xml with Some b -> not (XmlDepth.xml_depth_ok b) | None -> false in
     (match tree with
      | ["err-utf8"] -> Some "E:Read"
+     | _ when deep -> Some "E:Invalid"
+     | ["too-deep"] -> Some "model-accepts-depth"
      | ["err-parse"] -> Some "E:Invalid"
      | ["P"] -> Some "PANIC"
      | _ ->
